@@ -142,6 +142,8 @@ def judge_vector(chk, v, r, written, files):
     comp = "alone" if v["companion"] == "none" else "with-companions"
     if v.get("packages", "given") == "none":
         comp += "+no-package-option"
+    if site == "exit1-unnamed" and "+" not in comp:
+        comp = "anycompanion"      # a diagnostic without a file name comes from a stage that has lost the file: companions do not matter
     chk.mismatch(f"C07/{v['construct']}/{v['lang'] if 'language' in site or v['construct'].startswith('const') or 'language/' in site else 'anylang'}/{comp}/{site}",
                  f"{v['construct']} ({v['lang']}, {v['mode']}, companion={v['companion']}): {oc}; stderr: {r['stderr'][-300:].strip()}",
                  {"vector": v}, "exit 0 with output, or exit != 0 with a diagnostic naming the file", oc)
